@@ -256,6 +256,13 @@ func (e *Env) binary(ex *EBinary) Value {
 	switch ex.Op {
 	case "&&", "||", "==>", "<==>":
 		a := e.eval(ex.X)
+		if a.Sort == SBool && a.Term == "false" && (ex.Op == "&&" || ex.Op == "==>") {
+			// short-circuit: the right operand may be ill-defined on this path (e.g. lastret without a call)
+			if ex.Op == "&&" {
+				return boolV("false")
+			}
+			return boolV("true")
+		}
 		b := e.eval(ex.Y)
 		if a.Sort != SBool || b.Sort != SBool {
 			e.errf("%s needs booleans (got %s, %s)", ex.Op, a.Sort, b.Sort)
@@ -534,6 +541,12 @@ func (e *Env) call(ex *ECall) Value {
 		case "ncalls":
 			nm := exprText(ex.Args[0])
 			return intV(x.callCount(e.st, x.callKey(e.st, nm)))
+		case "called":
+			nm := exprText(ex.Args[0])
+			if e.st.lastCall(nm) != nil {
+				return boolV("true")
+			}
+			return boolV("false")
 		case "lastret", "lastarg":
 			nm := exprText(ex.Args[0])
 			iv, ok := ex.Args[1].(*EInt)
